@@ -165,7 +165,9 @@ class EvolveStateVector(torch.autograd.Function):
 
         res = krylov_exp(
             op,
-            state,
+            # krylov_exp normalises its input in place; when gradients are recorded
+            # autograd may still need the caller's tensor (observables at earlier times)
+            state.clone() if state.requires_grad else state,
             norm_tolerance=krylov_tolerance,
             exp_tolerance=krylov_tolerance,
             is_hermitian=True,
